@@ -2,6 +2,7 @@ import Pyrtma.Proofs.DataLog
 import Pyrtma.Proofs.DataLogFmt
 import Pyrtma.Proofs.DataLogLive
 import Pyrtma.Proofs.DataLogFineMain
+import Pyrtma.Proofs.DataLogFiles
 /-!
 # C17 — the data logger loses, duplicates and reorders nothing
 
@@ -307,6 +308,82 @@ theorem ql_file_of_batches (H off : Nat) (f : List (List FMsg)) (hne : f ≠ [])
     (by rw [e]; exact hd)
   simpa [qlReadsBack, e] using this
 
+/-! ### the last sentence of the property: handshake and formatters composed
+
+For every configuration, every operation list (every placement of arrivals, flush deadlines, sub-division
+deadlines, pause / resume, stop) and every schedule: the bytes the formatter model produces for the sequence of
+`write` / `finalize` calls each file of a data set received, read back with the package's readers and
+concatenated in file order, are exactly the accepted messages.  `Enc` is opaque; each theorem names what it needs
+of it. -/
+
+open Pyrtma.DataLog.Fmt in
+/-- **Raw**: reading all files of a data set frame by frame yields the accepted messages, in order — whatever
+number of files sub-division produced, whatever batches the flushes cut — provided every header has the fixed
+size `H > 0` and announces its payload's length (`wfMsg`). -/
+theorem raw_files_read_back (c : Cfg) (hf : c.finFirst = true) (ops : List RecOp) (sched : List Tid)
+    (hdone : (run c ops sched).rpc = .done) (i : Nat) (hi : i < c.n)
+    (H off : Nat) (hH : 0 < H) (e : Enc) (hwf : ∀ m, wfMsg H off (e.frame m)) :
+    rawFilesReadBack H off ((accepted (c.sel i) false ops).map e.frame)
+      (((run c ops sched).ds i).fileBatches.map (renderRaw e)) = true := by
+  have h := (run_inv c ops hf sched).at_done hdone i hi
+  unfold rawFilesReadBack
+  rw [DataLog.raw_files_read_back H off hH e hwf, h]
+  simp
+
+open Pyrtma.DataLog.Fmt in
+/-- **Quicklogger**: every file (file header, message headers, offset table, data block) read with the model of
+`QLReader.load`, results concatenated in file order: the accepted messages' headers and payloads — provided
+`wfMsg` and that the counters fit their 32-bit fields. -/
+theorem ql_files_read_back (c : Cfg) (hf : c.finFirst = true) (ops : List RecOp) (sched : List Tid)
+    (hdone : (run c ops sched).rpc = .done) (i : Nat) (hi : i < c.n)
+    (H off : Nat) (e : Enc) (hwf : ∀ m, wfMsg H off (e.frame m)) (hH : H < 4294967296)
+    (hn : (accepted (c.sel i) false ops).length < 4294967296)
+    (hd : dataLen ((accepted (c.sel i) false ops).map e.frame) < 4294967296) :
+    qlFilesReadBack off ((accepted (c.sel i) false ops).map e.frame)
+      (((run c ops sched).ds i).fileBatches.map (renderQL H e)) = true := by
+  have h := (run_inv c ops hf sched).at_done hdone i hi
+  have := DataLog.ql_files_read_back H off e hwf hH ((run c ops sched).ds i) (by rw [h]; exact hn) (by rw [h]; exact hd)
+  unfold qlFilesReadBack
+  rw [this, h]
+  simp
+
+/-- **JSON lines**: every file consists of complete lines, one per message; all lines in file order are the
+accepted messages' JSON texts — provided no text contains a raw newline. -/
+theorem json_files_read_back (c : Cfg) (hf : c.finFirst = true) (ops : List RecOp) (sched : List Tid)
+    (hdone : (run c ops sched).rpc = .done) (i : Nat) (hi : i < c.n)
+    (e : Enc) (hnl : ∀ m, '\n' ∉ e.text m) :
+    jsonFilesReadBack ((accepted (c.sel i) false ops).map e.text)
+      (((run c ops sched).ds i).fileBatches.map (renderJson e)) = true := by
+  have h := (run_inv c ops hf sched).at_done hdone i hi
+  obtain ⟨h1, h2⟩ := DataLog.json_files_read_back e hnl ((run c ops sched).ds i)
+  simp only [jsonFilesReadBack, Bool.and_eq_true, List.all_eq_true, beq_iff_eq]
+  exact ⟨h1, by rw [h2, h]⟩
+
+open Pyrtma.DataLog.Fmt in
+/-- … and decode line by line to the messages, for every decoder that inverts the encoder (hypothesis
+`hdec`: `Message.from_json ∘ to_json = id`, C10's subject; injectivity of the encoder is all that is used). -/
+theorem json_lines_decode_to_messages (c : Cfg) (hf : c.finFirst = true) (ops : List RecOp) (sched : List Tid)
+    (hdone : (run c ops sched).rpc = .done) (i : Nat) (hi : i < c.n)
+    (e : Enc) (hnl : ∀ m, '\n' ∉ e.text m) (dec : List Char → Option Msg) (hdec : ∀ m, dec (e.text m) = some m) :
+    (((((run c ops sched).ds i).fileBatches.map (renderJson e)).map (fun f => (splitLines [] f).1)).flatten).map dec
+      = (accepted (c.sel i) false ops).map some := by
+  have h := (run_inv c ops hf sched).at_done hdone i hi
+  rw [(DataLog.json_files_read_back e hnl ((run c ops sched).ds i)).2, h, List.map_map]
+  exact List.map_congr_left (fun m _ => hdec m)
+
+open Pyrtma.DataLog.Fmt in
+/-- **Empty files** (a data set that selects nothing, a sub-division right before `stop()`, a run with no
+arrival): whatever number of empty `write([])` calls preceded `finalize([])`, the quicklogger file is the bare
+24-byte header with all counters zero, and reads back as no message. -/
+theorem ql_empty_file (H : Nat) (parts : List (List FMsg)) (hp : parts.flatten = []) (off : Nat) :
+    qlFile H parts [] = (qlCanonHdr H []).bytes ∧ (qlFile H parts []).length = 24 ∧
+      qlRead off (qlFile H parts []) = [] := by
+  have e : qlFile H parts [] = (qlCanonHdr H []).bytes := by
+    rw [qlFile_eq, hp]; simp [qlCanon, offsetsFrom]
+  refine ⟨e, by rw [e]; simp, ?_⟩
+  rw [e]
+  simp [qlRead, qlCanonHdr, QLHdr.bytes, le32, unle32, chunks, dataLen, hdrLen, qlHdrSize]
+
 /-! ### non-vacuity -/
 
 /-- the same schedule with the repaired order: `stop()` returns and both messages are there -/
@@ -329,6 +406,24 @@ example :
     let m3 : FMsg := ⟨[3, 0, 0, 0, 1, 0, 0, 0], [9]⟩
     qlRead 4 (qlFile 8 [[m1], [m2]] [m3]) = [m1, m2, m3] ∧ qlFile 8 [[m1], [m2]] [m3] = qlFile 8 [] [m1, m2, m3] ∧
     (qlFile 8 [[m1], [m2]] [m3]).length = 24 + 24 + 12 + 3 := by decide +kernel
+
+/-- a concrete encoder: 8-byte header (id, payload length), payload of 0-2 bytes, decimal text -/
+def encEx : Enc :=
+  { frame := fun m => ⟨[m.id % 256, 0, 0, 0, m.ty % 3, 0, 0, 0], List.replicate (m.ty % 3) (m.id % 256)⟩,
+    text := fun m => (toString m.id).toList }
+
+open Pyrtma.DataLog.Fmt in
+/-- composition, all three formats: the session of the second example leaves two files for data set 0 (the second
+one empty: 24 bytes of quicklogger header); read back and concatenated they are messages 1 and 3 -/
+example :
+    let c : Cfg := { n := 2, sel := fun i => if i = 0 then .all else .only [1], interval := fun i => if i = 0 then 30 else 0 }
+    let ops : List RecOp := [.update 16 ⟨1, 0⟩, .pause 1, .update 1 ⟨2, 1⟩, .resume 1, .update 20 ⟨3, 1⟩, .tick 20]
+    let d := (run c ops (roundRobin 40)).ds 0
+    d.fileBatches = [[[⟨1, 0⟩], [⟨3, 1⟩], []], [[]]] ∧
+    (d.fileBatches.map (renderQL 8 encEx)).map List.length = [24 + 16 + 8 + 1, 24] ∧
+    qlFilesReadBack 4 ([⟨1, 0⟩, ⟨3, 1⟩].map encEx.frame) (d.fileBatches.map (renderQL 8 encEx)) = true ∧
+    rawFilesReadBack 8 4 ([⟨1, 0⟩, ⟨3, 1⟩].map encEx.frame) (d.fileBatches.map (renderRaw encEx)) = true ∧
+    jsonFilesReadBack [['1'], ['3']] (d.fileBatches.map (renderJson encEx)) = true := by decide +kernel
 
 section fine_nonvacuity
 open Pyrtma.DataLog.Fine
